@@ -24,6 +24,11 @@ CLAIMED["C13"] = dict(
    note="Trusted: go/ssa, sync.RWMutex. externalLookup field is unguarded and outside the listed operations.",
    technique="lockset / typestate dataflow on SSA (closed-world package)",
    design="4 C13")
+CLAIMED["C14"] = dict(
+   text="Exhaustive effect/ownership analysis over every store-like instruction of vm, env, core, astutil: no write (store, map update, append-into, SetPosition, reflective handle) into a parsed tree except on nodes allocated in the same function; no write to or through a package-level variable of vm/env/parser/ast/core outside package initialisers (incl. nodes shared through a global); per-run records never escape their run; import only iterates the shared package tables and re-binds entries in a fresh environment; every reflect.Value kept in a package-level variable is built non-addressable (so & / *p = v cannot reach shared storage). Holds for all programs, run counts and interleavings because it is a may-write analysis. Determinism of host functions and data races in script-owned data are NOT decided.",
+   note="Trusted: go/ssa, local store-to-load forwarding within a block; closed-world over the module's packages. Two addressable globals are allow-listed with reasons (vm.errorNilValue, env.NilValue) and their uses checked.",
+   technique="SSA effect / ownership (who-may-write) analysis with positive control",
+   design="4 C14")
 NOT_YET = "checker for this property is not built yet in this revision (see DESIGN.md section 4 for the planned static rules)"
 ALL = ["C%02d" % i for i in range(1, 21)]
 
